@@ -1,14 +1,135 @@
 (* Props/C15.v -- property C15 stated on the model of stix2/utils.py
-   (Model/Timestamp.v); proofs in Proofs/.                                   *)
-From Coq Require Import ZArith List.
-From V Require Import Base.UString Model.Calendar Model.Timestamp Spec.TimestampSpec Proofs.C15Proofs.
-Open Scope Z_scope.
+   (Model/Timestamp.v, Model/Calendar.v) against the strict reader of
+   Spec/TimestampSpec.v; proofs in Proofs/.
 
+   Instants are Z microseconds since 0001-01-01T00:00:00Z; `in_range t` is
+   0 <= t < 10000-01-01 (Python's datetime range, i.e. years 1..9999); every
+   statement quantifies over all such instants, the three precisions and the
+   two precision constraints.  `Pad4` is the year mode of the repaired code
+   ("{:04d}".format(year)), `Unpadded` that of strftime('%Y') on glibc.
+   `nm` is what parse_into_datetime does with a naive datetime (kept naive, or
+   localised to UTC): every statement about `write` holds for both.          *)
+From Coq Require Import String ZArith List.
+From V Require Import Base.UString Model.Calendar Model.Timestamp Spec.TimestampSpec
+  Proofs.TimestampFacts Proofs.C15Proofs Proofs.CalendarFacts.
+Import ListNotations.
+Open Scope list_scope. Open Scope Z_scope.
+
+(* the civil calendar: every day number of Z is a valid date that counts back to it *)
+Theorem civil_roundtrip : forall n,
+  let '(y, m, d) := civil_of_days n in valid_date y m d = true /\ days_of_civil y m d = n.
+Proof. exact civil_roundtrip_lemma. Qed.
+Print Assumptions civil_roundtrip.
+
+(* truncation never rounds: the truncated instant is the largest multiple of the unit not after t *)
 Theorem floor_le : forall p c t,
   floor_to p c t <= t < floor_to p c t + unit_of p c /\ (floor_to p c t) mod unit_of p c = 0.
 Proof. exact floor_le_lemma. Qed.
 Print Assumptions floor_le.
 
+(* canonical form YYYY-MM-DDTHH:MM:SS[.d+]Z with a four-digit year *)
+Theorem fmt_canonical : forall p c t, in_range t = true -> is_canonical (format Pad4 p c t) = true.
+Proof. exact fmt_canonical_lemma. Qed.
+Print Assumptions fmt_canonical.
+
+(* ... which the unpadded strftime variant violates (year 999) *)
+Theorem fmt_canonical_refuted :
+  exists t, in_range t = true /\ forall p c, is_canonical (format Unpadded p c t) = false.
+Proof. exact fmt_canonical_refuted_lemma. Qed.
+Print Assumptions fmt_canonical_refuted.
+
+(* the text, read strictly, denotes exactly the instant truncated to the precision *)
+Theorem fmt_denotes : forall p c t, in_range t = true ->
+  exists rd, spec_read (format Pad4 p c t) = Some rd /\ denotes rd (floor_to (sp p) (sc c) t).
+Proof. exact fmt_denotes_lemma. Qed.
+Print Assumptions fmt_denotes.
+
+(* exactly / at least the number of fractional digits the precision requires *)
+Theorem fmt_digits : forall p c t, in_range t = true ->
+  exists secs ds, spec_read (format Pad4 p c t) = Some (secs, ds) /\ digit_rule (sp p) (sc c) ds /\
+                  (length ds <= 6)%nat.
+Proof. exact fmt_digits_lemma. Qed.
+Print Assumptions fmt_digits.
+
+(* the library's own reader (strptime) reads the written text back as the truncated instant *)
+Theorem fmt_reads_back : forall p c t, in_range t = true ->
+  parse_strptime (format Pad4 p c t) = Some (floor_to (sp p) (sc c) t).
+Proof. exact parse_format_lemma. Qed.
+Print Assumptions fmt_reads_back.
+
+(* write, read back, write again: a fixed point *)
+Theorem fmt_fixpoint : forall nm p c t, in_range t = true ->
+  write nm Pad4 p c (InStr (format Pad4 p c t)) = Ok (format Pad4 p c t).
+Proof. exact fmt_fixpoint_lemma. Qed.
+Print Assumptions fmt_fixpoint.
+
+(* later instants are never written as earlier ones: on truncated instants ... *)
 Theorem fmt_monotone : forall p c t1 t2, t1 <= t2 -> floor_to p c t1 <= floor_to p c t2.
 Proof. exact floor_monotone_lemma. Qed.
 Print Assumptions fmt_monotone.
+
+(* ... and on what the written texts denote *)
+Theorem fmt_order : forall p c t1 t2 rd1 rd2 x1 x2, in_range t1 = true -> in_range t2 = true -> t1 <= t2 ->
+  spec_read (format Pad4 p c t1) = Some rd1 -> spec_read (format Pad4 p c t2) = Some rd2 ->
+  denotes rd1 x1 -> denotes rd2 x2 -> x1 <= x2.
+Proof. exact fmt_order_lemma. Qed.
+Print Assumptions fmt_order.
+
+(* inputs of parse_into_datetime / TimestampProperty.clean: what is written is the text of the
+   input instant converted to UTC (so all of the above applies to it)        *)
+Theorem write_naive : forall nm p c l, in_range l = true ->
+  write nm Pad4 p c (InDatetime l None) = Ok (format Pad4 p c l).
+Proof. exact write_naive_lemma. Qed.
+Print Assumptions write_naive.
+
+Theorem write_aware : forall nm p c l o, in_range (l - o) = true -> o mod unit_of (sp p) (sc c) = 0 ->
+  write nm Pad4 p c (InDatetime l (Some o)) = Ok (format Pad4 p c (l - o)).
+Proof. exact write_aware_lemma. Qed.
+Print Assumptions write_aware.
+
+(* every whole-second UTC offset satisfies the hypothesis of write_aware *)
+Theorem whole_second_offsets : forall p c o, o mod 1000000 = 0 -> o mod unit_of p c = 0.
+Proof. exact whole_second_offset. Qed.
+Print Assumptions whole_second_offsets.
+
+(* conversions that leave years 1..9999 write nothing *)
+Theorem write_overflow : forall nm ym p c l o, o mod unit_of (sp p) (sc c) = 0 -> in_range (l - o) = false ->
+  in_range l = true -> write nm ym p c (InDatetime l (Some o)) = Raise "OverflowError"%string.
+Proof. exact write_overflow_lemma. Qed.
+Print Assumptions write_overflow.
+
+Theorem write_date : forall nm p c y m d, valid_fields y m d 0 0 0 0 = true ->
+  write nm Pad4 p c (InDate y m d) = Ok (format Pad4 p c (instant_of y m d 0 0 0 0)).
+Proof. exact write_date_lemma. Qed.
+Print Assumptions write_date.
+
+(* accepted timestamp strings: written as the instant the reader took them for, which is in range *)
+Theorem write_string : forall nm p c s t, parse_strptime s = Some t ->
+  write nm Pad4 p c (InStr s) = Ok (format Pad4 p c t) /\ in_range t = true.
+Proof. exact write_string_lemma. Qed.
+Print Assumptions write_string.
+
+Theorem write_string_rejected : forall nm p c s, parse_strptime s = None ->
+  write nm Pad4 p c (InStr s) = Raise "ValueError"%string.
+Proof. exact write_string_rejected_lemma. Qed.
+Print Assumptions write_string_rejected.
+
+(* the offset hypothesis of write_aware cannot be dropped (an offset of half a second) *)
+Theorem subsecond_offset_excluded :
+  exists l o, in_range (l - o) = true /\ forall nm,
+    write nm Pad4 PSecond CExact (InDatetime l (Some o)) <> Ok (format Pad4 PSecond CExact (l - o)).
+Proof. exact subsecond_offset_counterexample. Qed.
+Print Assumptions subsecond_offset_excluded.
+
+(* hypotheses are satisfiable; the model computes *)
+Example ex_in_range : in_range (dt 2016 2 29 23 59 59 999999) = true.
+Proof. reflexivity. Qed.
+Example ex_format_milli_exact :
+  format Pad4 PMilli CExact (dt 2016 2 29 23 59 59 999999) = u "2016-02-29T23:59:59.999Z".
+Proof. vm_compute. reflexivity. Qed.
+Example ex_format_year1 : format Pad4 PAny CExact (dt 1 1 1 0 0 0 120000) = u "0001-01-01T00:00:00.12Z".
+Proof. vm_compute. reflexivity. Qed.
+Example ex_parse_lenient : parse_strptime (u "2016-2-3t4:5:6.5z") = Some (dt 2016 2 3 4 5 6 500000).
+Proof. vm_compute. reflexivity. Qed.
+Example ex_seven_digits_rejected : parse_strptime (u "2016-02-03T04:05:06.1234567Z") = None.
+Proof. vm_compute. reflexivity. Qed.
